@@ -569,3 +569,116 @@ Proof.
 Qed.
 
 End SlidingProofs.
+
+(** * whole histories: at every point the contents are the first arg-max, per cell of the CURRENT geometry, of
+    (what the last remap re-inserted ++ every insertion since), or of the insertions since the last clear *)
+Section History.
+Variable P : Type.
+Notation PP := (list Q * P)%type.
+Notation entry := (entry P).
+Notation sstate := (sstate P).
+Notation sop := (sop P).
+
+(** ghost: the candidates (routed by the geometry in force when they were (re-)inserted) that account for the contents *)
+Definition gadd_single (c : scfg) (sa : sstate * list (cand PP)) (e : entry) : sstate * list (cand PP) :=
+  let '(st, acc) := sa in
+  let st' := fst (sadd_single false c st e) in
+  if Nat.eqb (S (ss_total st) mod s_freq c) 0
+  then (st', reinserted c (ss_geom st') (mkSS (ss_arch st) (buf_add c (ss_buf st) e) (S (ss_total st)) (ss_geom st)))
+  else (st', acc ++ [cand_of_entry c (ss_geom st) e]).
+
+Definition gstep (c : scfg) (sa : sstate * list (cand PP)) (o : sop) : sstate * list (cand PP) :=
+  match o with
+  | SAdd es => fold_left (gadd_single c) es sa
+  | SAddSingle e => gadd_single c sa e
+  | SClear => (sclear c (fst sa), [])
+  end.
+
+Definition grun (c : scfg) (h : list sop) : sstate * list (cand PP) := fold_left (gstep c) h (sinit P c, []).
+
+Lemma sadd_fold c es : forall (st : sstate), fst (sadd false c st es) = fold_left (fun s e => fst (sadd_single false c s e)) es st.
+Proof.
+  induction es as [|e t IH]; intros st; simpl; [reflexivity|].
+  destruct (sadd_single false c st e) as [st1 fb] eqn:E1. specialize (IH st1).
+  destruct (sadd false c st1 t) as [st2 fbs]. simpl in *. exact IH.
+Qed.
+
+Lemma gadd_single_fst c sa e : fst (gadd_single c sa e) = fst (sadd_single false c (fst sa) e).
+Proof. destruct sa as [st acc]. unfold gadd_single. destruct (Nat.eqb _ 0); reflexivity. Qed.
+
+Lemma gfold_fst c es : forall sa, fst (fold_left (gadd_single c) es sa) = fst (sadd false c (fst sa) es).
+Proof.
+  induction es as [|e t IH]; intros sa; [reflexivity|].
+  simpl fold_left. rewrite IH, gadd_single_fst, !sadd_fold. reflexivity.
+Qed.
+
+(** the ghost run follows the real run *)
+Lemma grun_fst c h : fst (grun c h) = srun false c h.
+Proof.
+  unfold grun, srun. generalize (@nil (cand PP)). generalize (sinit P c).
+  induction h as [|o t IH]; intros st acc; [reflexivity|].
+  cbn [fold_left]. destruct o as [es|e|]; cbn [gstep sstep].
+  - destruct (fold_left (gadd_single c) es (st, acc)) as [st' acc'] eqn:E. rewrite IH. f_equal.
+    change st' with (fst (st', acc')). rewrite <- E, gfold_fst. reflexivity.
+  - destruct (gadd_single c (st, acc) e) as [st' acc'] eqn:E. rewrite IH. f_equal.
+    change st' with (fst (st', acc')). rewrite <- E, gadd_single_fst. reflexivity.
+  - cbn [fst]. apply IH.
+Qed.
+
+Definition GInv (c : scfg) (sa : sstate * list (cand PP)) : Prop :=
+  SInv c (fst sa) /\ J (acfg c) (ss_arch (fst sa)) (snd sa) /\
+  forall x, In x (snd sa) -> c_cell x = cell_of c (ss_geom (fst sa)) (c_pay x).
+
+Lemma gadd_single_inv c sa e : cwf c -> entry_ok c e -> GInv c sa -> GInv c (gadd_single c sa e).
+Proof.
+  intros Hc He [HS [HJ Hcell]]. destruct sa as [st acc]. simpl in HS, HJ, Hcell.
+  pose proof (@sadd_single_sinv P c st e Hc HS He) as HS'.
+  unfold gadd_single. destruct (Nat.eqb (S (ss_total st) mod s_freq c) 0) eqn:E.
+  - set (st1 := mkSS (ss_arch st) (buf_add c (ss_buf st) e) (S (ss_total st)) (ss_geom st)).
+    assert (HS1 : SInv c st1).
+    { destruct HS as [H1 H2 H3 H4 H5]. constructor; simpl; auto. apply buf_add_ok; auto. }
+    assert (Hne : ss_buf st1 <> []) by apply buf_add_ne.
+    pose proof (remap_contents Hc HS1 Hne) as [Hg HJ'].
+    assert (Heq : fst (sadd_single false c st e) = fst (remap false c st1)) by (rewrite (@remap_step P false c st e E); reflexivity).
+    split; [exact HS'|]. simpl fst; simpl snd. rewrite Heq. split.
+    + rewrite Hg. exact HJ'.
+    + intros x Hx. rewrite Hg in *. eapply reinserted_consistent; eauto.
+  - pose proof (@no_remap_step P false c st e E) as Hstep. cbv zeta in Hstep.
+    assert (Hlt : c_cell (cand_of_entry c (ss_geom st) e) < cells (acfg c))
+      by (apply cand_of_cell_lt; auto; apply (si_gwf HS)).
+    split; [exact HS'|]. simpl fst; simpl snd. rewrite Hstep. simpl. split.
+    + apply (@J_step _ (acfg c) (ss_arch st) acc (AddSingle (cand_of_entry c (ss_geom st) e)) (acfg_elitist c) HJ Hlt).
+    + intros x Hx. apply in_app_or in Hx. destruct Hx as [Hx|[<-|[]]]; [apply Hcell; auto|reflexivity].
+Qed.
+
+Lemma gstep_inv c sa o : cwf c -> sop_ok c o -> GInv c sa -> GInv c (gstep c sa o).
+Proof.
+  intros Hc Ho HG. destruct o as [es|e|]; simpl.
+  - revert sa HG. induction es as [|e t IH]; intros sa HG; simpl; auto.
+    inversion Ho; subst. apply IH; auto. apply gadd_single_inv; auto.
+  - apply gadd_single_inv; auto.
+  - destruct HG as [HS [HJ Hcell]]. split; [apply sclear_sinv; auto|]. simpl. split.
+    + split; [apply clear_ainv, (si_ainv HS)|]. intros i. rewrite clear_content. reflexivity.
+    + intros x [].
+Qed.
+
+Theorem history_contents c (h : list sop) :
+  cwf c -> (forall o, In o h -> sop_ok c o) ->
+  forall i, content (ss_arch (srun false c h)) i =
+            option_map (@elite_of PP) (first_argmax c_obj (group i (snd (grun c h)))) /\
+            (forall x, In x (snd (grun c h)) ->
+               c_cell x = sindex (s_eps c) (s_dims c) (ss_geom (srun false c h)) (fst (c_pay x))).
+Proof.
+  intros Hc Hok.
+  assert (HG : GInv c (grun c h)).
+  { unfold grun.
+    assert (H0 : GInv c (sinit P c, [])).
+    { split; [apply sinit_sinv; auto|]. simpl. split; [apply J_init|intros x []]. }
+    revert H0 Hok. generalize (sinit P c, @nil (cand PP)).
+    induction h as [|o t IH]; intros sa H0 Hok; simpl; auto.
+    apply IH; [apply gstep_inv; auto; apply Hok; simpl; auto|intros; apply Hok; simpl; auto]. }
+  destruct HG as [_ [[_ HJ] Hcell]]. rewrite grun_fst in HJ, Hcell.
+  intros i. split; [apply HJ|exact Hcell].
+Qed.
+
+End History.
